@@ -36,9 +36,9 @@ TEXT = ("TLC checks the clone/drop/take protocol of SharedFd step by step (singl
         "cancel / key-drop / driver-drop moment on both drivers) for 'produced => delivered or closed'. Every program "
         "and every interleaving of the small models is replayed on the real SharedFd (both builds; the multi-threaded "
         "one through a schedule controller parked at hooks inside fd.rs), on File/TcpStream/UnixStream close() and on "
-        "the real Proactor. The close future is polled by hand with two counting wakers (re-polled with the same and "
-        "with the other one: a future that moves between tasks) and the oracle asks for the waker of its LATEST poll; on "
-        "the real Proactor, with the close counter, the closer's wake-ups, the strong count at every hook and the "
+        "the real Proactor (descriptor table before/after). The close future is polled by hand with two counting wakers (re-polled with the same and "
+        "with the other one: a future that moves between tasks) and the oracle asks for the waker of its LATEST poll. "
+        "Compared with the model: the close counter, which of the two wakers was woken, the strong count at every hook and the "
         "process's descriptor table compared with the model and the property's predicates evaluated on the real "
         "observation.")
 NOTE = ("Bounds: <= 3 (thorough: 4) other holders (handles + operations) and one closer, programs <= 8 methods; sync schedules: all "
